@@ -106,6 +106,9 @@ func childMain(specPath string) int {
 			// process inside the write system call that hits the limit.
 			fmt.Fprintln(os.Stderr, "c27 child: rt_sigaction:", err)
 			return 3
+		} else {
+			// SIGXFSZ's default action dumps core; do not litter.
+			syscall.Setrlimit(syscall.RLIMIT_CORE, &syscall.Rlimit{})
 		}
 		if err := syscall.Getrlimit(syscall.RLIMIT_FSIZE, &saved); err != nil {
 			return 3
